@@ -51,6 +51,17 @@
 (*   "isum"  mi = <<index name, dimension>>  (IndexSum)                    *)
 (*   "list"  ListTensor, "grad" Grad, "transposed" Transposed              *)
 (*   "conj"  Conj (ufl writes inner(f, v) as conj(inner(v, f)))            *)
+(*   "ident" n = dimension (Identity; made by apply_derivatives)           *)
+(* FORM OPERATIONS on a finished scalar integrand t (roots; nothing is     *)
+(* built on top of them):                                                  *)
+(*   "gderiv" mi = <<k, number>>: derivative(t*dx, tuple DerivTuples[k] of *)
+(*           Coefficients) -- the direction is a new Argument `number`, on *)
+(*           the space of the coefficient or, for a tuple of >= 2, on the  *)
+(*           mixed element that derivative() builds from their elements    *)
+(*           (element index Len(Elems) + k, see ElemAt)                    *)
+(*   "cderiv" mi = <<n, number>>: derivative(t*dx, SpatialCoordinate, V),  *)
+(*           the shape derivative in the direction V = Argument `number`   *)
+(*           on Elems[n] (a vector element of GDim components)             *)
 (* (TLC cannot mix strings and integers in one set, hence the integer      *)
 (* encoding of multi-index entries.)                                       *)
 (***************************************************************************)
@@ -73,7 +84,11 @@ CONSTANTS GDim,        \* geometric dimension of the (affine simplex) mesh
           PolyMax,     \* polynomials are kept up to this total degree
           AsCodedHolds,\* TRUE: the as-coded rule is expected to be safe on this pool (checked by Checked)
           DumpOn,      \* TRUE: print every term with its estimates and true degree as JSON
-          Seeds        \* initial stacks: {<< >>} = enumerate; a set of <<t>> = evaluate given terms
+          Seeds,       \* initial stacks: {<< >>} = enumerate; a set of <<t>> = evaluate given terms
+          DerivTuples, \* sequence of tuples (sequences of distinct indices into Elems, of Coefficients)
+                       \* offered to derivative(form, tuple) ("gderiv")
+          DirSlots     \* indices into Elems (vector elements of GDim components, identity pullback)
+                       \* offered as direction space of a shape derivative ("cderiv")
 
 ZERO == -1                      \* "degree" of the zero polynomial
 Max2(a, b) == IF a >= b THEN a ELSE b
@@ -133,6 +148,23 @@ ElemOK(e) ==
                                      /\ e.subs[i].physsize = e.subs[1].physsize
 ASSUME PoolOK == \A i \in DOMAIN Elems : ElemOK(Elems[i])
 
+\* The element of a form argument.  Indices beyond the pool denote the elements that
+\* derivative(form, (f1, .., fm)) BUILDS for its direction (formoperators._MixedElement): a mixed
+\* element of the coefficients' elements in the order of the tuple (physical value = concatenation of
+\* the flattened physical values; embedded_superdegree = max over the sub-elements).  For a single
+\* coefficient the direction lives on the coefficient's own space.
+DerivElem(W) == IF Len(W) = 1 THEN Elems[W[1]] ELSE Mixed([j \in DOMAIN W |-> Elems[W[j]]])
+ElemAt(n) == IF n <= Len(Elems) THEN Elems[n] ELSE DerivElem(DerivTuples[n - Len(Elems)])
+DerivArgElem(k) == IF Len(DerivTuples[k]) = 1 THEN DerivTuples[k][1] ELSE Len(Elems) + k
+ASSUME DerivOK ==
+  /\ \A k \in DOMAIN DerivTuples :
+        LET W == DerivTuples[k] IN /\ Len(W) >= 1
+                                   /\ \A j \in DOMAIN W : W[j] \in DOMAIN Elems
+                                   /\ \A i, j \in DOMAIN W : i # j => W[i] # W[j]
+  /\ \A n \in DirSlots : n \in DOMAIN Elems /\ Elems[n].kind = "vecP" /\ Elems[n].physsize = GDim
+RECURSIVE HasPiola(_)
+HasPiola(e) == e.kind = "RT-like" \/ \E i \in DOMAIN e.subs : HasPiola(e.subs[i])
+
 \* row-major flattening of a fixed multi-index (flatten_multiindex / shape_to_strides)
 RECURSIVE Flat(_, _)
 Flat(c, sh) == IF c = <<>> THEN 0
@@ -165,12 +197,13 @@ IndepComp(e, c) == IF e.kind = "symmetric"
 (* TERMS *)
 
 N(op, n, mi, args) == [op |-> op, n |-> n, mi |-> mi, args |-> args]
-Terminals == {"coef", "arg", "x", "X", "lit", "zero"}
+Terminals == {"coef", "arg", "x", "X", "lit", "zero", "ident"}
+FormOps == {"gderiv", "cderiv"}
 IsName(k) == k >= 10
 IdxDom == 10..17
 Env0 == [k \in IdxDom |-> 0]
 
-RECURSIVE Shape(_), Free(_), Depth(_), ArgNums(_), HasDomain(_), HasCoord(_)
+RECURSIVE Shape(_), Free(_), Depth(_), ArgNums(_), HasDomain(_), HasCoord(_), HasCoef(_, _)
 
 \* Free(t): set of <<index name, dimension>>
 Names(F) == {p[1] : p \in F}
@@ -178,7 +211,9 @@ DimOf(F, k) == (CHOOSE p \in F : p[1] = k)[2]
 
 Shape(t) ==
   LET a == t.args IN
-  CASE t.op \in {"coef", "arg"} -> PhysShape(Elems[t.n])
+  CASE t.op \in {"coef", "arg"} -> PhysShape(ElemAt(t.n))
+    [] t.op = "ident" -> <<t.n, t.n>>
+    [] t.op \in FormOps -> <<>>
     [] t.op = "x" -> <<GDim>>
     [] t.op = "X" -> <<TDim>>
     [] t.op = "lit" -> <<>>
@@ -194,7 +229,7 @@ Shape(t) ==
 
 Free(t) ==
   LET a == t.args IN
-  CASE t.op \in Terminals -> {}
+  CASE t.op \in Terminals \cup FormOps -> {}
     [] t.op \in {"sum", "pow", "list", "grad", "transposed", "conj"} -> Free(a[1])
     [] t.op \in {"prod", "inner", "dot", "outer"} -> Free(a[1]) \cup Free(a[2])
     [] t.op = "indexed" -> LET sh == Shape(a[1]) IN
@@ -204,11 +239,12 @@ Free(t) ==
 
 \* an IndexSum is created implicitly by a product with a repeated index: it does not count
 Depth(t) == IF t.args = <<>> THEN 0
-            ELSE IF t.op = "isum" THEN Depth(t.args[1])
+            ELSE IF t.op \in {"isum"} \cup FormOps THEN Depth(t.args[1])   \* (nor does a form operation)
             ELSE 1 + SeqMaxI([k \in DOMAIN t.args |-> Depth(t.args[k])])
 ArgNums(t) == IF t.op = "arg" THEN {t.mi[1]}
-              ELSE UNION {ArgNums(t.args[k]) : k \in DOMAIN t.args}
-HasDomain(t) == t.op \in {"coef", "arg", "x", "X"} \/ \E k \in DOMAIN t.args : HasDomain(t.args[k])
+              ELSE (IF t.op \in FormOps THEN {t.mi[2]} ELSE {}) \cup UNION {ArgNums(t.args[k]) : k \in DOMAIN t.args}
+HasCoef(t, n) == (t.op = "coef" /\ t.n = n) \/ \E k \in DOMAIN t.args : HasCoef(t.args[k], n)
+HasDomain(t) == t.op \in {"coef", "arg", "x", "X"} \cup FormOps \/ \E k \in DOMAIN t.args : HasDomain(t.args[k])
 HasCoord(t) == t.op \in {"x", "X"} \/ \E k \in DOMAIN t.args : HasCoord(t.args[k])
 Rank(t) == Len(Shape(t))
 
@@ -234,13 +270,20 @@ DMul(a, b) == IF a = ZERO \/ b = ZERO THEN ZERO ELSE a + b      \* product
 DPow(a, n) == IF n = 0 THEN 0 ELSE IF a = ZERO THEN ZERO ELSE a * n
 DGrad(a)   == IF a <= 0 THEN ZERO ELSE a - 1                    \* one spatial derivative
 
-RECURSIVE TD(_, _, _)
+RECURSIVE TD(_, _, _), DG(_, _, _, _), DS(_, _, _, _)
 TD(t, c, env) ==
   LET a == t.args IN
-  CASE t.op \in {"coef", "arg"} -> CompDeg(Elems[t.n], Flat(c, PhysShape(Elems[t.n])))
+  CASE t.op \in {"coef", "arg"} -> CompDeg(ElemAt(t.n), Flat(c, PhysShape(ElemAt(t.n))))
     [] t.op \in {"x", "X"} -> 1          \* affine cell: x is affine in X and conversely
     [] t.op = "lit" -> 0
     [] t.op = "zero" -> ZERO
+    [] t.op = "ident" -> IF c[1] = c[2] THEN 0 ELSE ZERO
+    \* the integrand of derivative(t*dx, tuple of coefficients): the Gateaux derivative of t
+    [] t.op = "gderiv" -> DG(a[1], <<>>, env, DerivTuples[t.mi[1]])
+    \* the integrand of the shape derivative of t*dx in the direction V, on the reference cell:
+    \* (t detJ)' = t' detJ + t detJ', detJ' = detJ div V
+    [] t.op = "cderiv" -> DAdd(DS(a[1], <<>>, env, t.mi[1]),
+                               DMul(TD(a[1], <<>>, env), DGrad(ElemAt(t.mi[1]).degree)))
     [] t.op = "sum" -> DAdd(TD(a[1], c, env), TD(a[2], c, env))
     [] t.op = "prod" -> DMul(TD(a[1], <<>>, env), TD(a[2], <<>>, env))
     [] t.op = "pow" -> DPow(TD(a[1], <<>>, env), t.n)
@@ -259,6 +302,72 @@ TD(t, c, env) ==
                          DMul(TD(a[1], SubSeq(c, 1, ra), env), TD(a[2], SubSeq(c, ra + 1, Len(c)), env))
     [] t.op = "transposed" -> TD(a[1], Rev(c), env)
     [] t.op = "conj" -> TD(a[1], c, env)          \* real polynomials
+
+\* Degree of the Gateaux derivative of component c of t w.r.t. the coefficients on the elements W
+\* (a tuple) in a generic direction: the increment of a coefficient is a generic member of the same
+\* space; Leibniz.  Exact for generic data (all coefficients positive: nothing cancels).
+DProd2(ta, da, tb, db) == DAdd(DMul(da, tb), DMul(ta, db))        \* (a b)' = a' b + a b'
+DG(t, c, env, W) ==
+  LET a == t.args IN
+  CASE t.op = "coef" -> IF \E j \in DOMAIN W : W[j] = t.n
+                        THEN CompDeg(Elems[t.n], Flat(c, PhysShape(Elems[t.n]))) ELSE ZERO
+    [] t.op \in Terminals \ {"coef"} -> ZERO
+    [] t.op = "sum" -> DAdd(DG(a[1], c, env, W), DG(a[2], c, env, W))
+    [] t.op = "prod" -> DProd2(TD(a[1], <<>>, env), DG(a[1], <<>>, env, W), TD(a[2], <<>>, env), DG(a[2], <<>>, env, W))
+    [] t.op = "pow" -> IF t.n = 0 THEN ZERO
+                       ELSE DMul(DPow(TD(a[1], <<>>, env), t.n - 1), DG(a[1], <<>>, env, W))
+    [] t.op = "indexed" -> DG(a[1], Resolve(t.mi, env), env, W)
+    [] t.op = "ctensor" -> DG(a[1], <<>>, Bind(env, t.mi, c), W)
+    [] t.op = "isum" -> SetMax({DG(a[1], c, [env EXCEPT ![t.mi[1]] = v], W) : v \in 0..(t.mi[2] - 1)})
+    [] t.op = "list" -> DG(a[c[1] + 1], Tail(c), env, W)
+    [] t.op = "grad" -> DGrad(DG(a[1], Front(c), env, W))
+    [] t.op = "inner" -> SetMax({DProd2(TD(a[1], cc, env), DG(a[1], cc, env, W), TD(a[2], cc, env), DG(a[2], cc, env, W)) : cc \in Comps(Shape(a[1]))})
+    [] t.op = "dot" -> LET ra == Rank(a[1])
+                           ca == SubSeq(c, 1, ra - 1)
+                           cb == SubSeq(c, ra, Len(c))
+                           kd == Shape(a[2])[1] IN
+                       SetMax({DProd2(TD(a[1], ca \o <<k>>, env), DG(a[1], ca \o <<k>>, env, W),
+                                      TD(a[2], <<k>> \o cb, env), DG(a[2], <<k>> \o cb, env, W)) : k \in 0..(kd - 1)})
+    [] t.op = "outer" -> LET ra == Rank(a[1])  c1 == SubSeq(c, 1, ra)  c2 == SubSeq(c, ra + 1, Len(c)) IN
+                         DProd2(TD(a[1], c1, env), DG(a[1], c1, env, W), TD(a[2], c2, env), DG(a[2], c2, env, W))
+    [] t.op = "transposed" -> DG(a[1], Rev(c), env, W)
+    [] t.op = "conj" -> DG(a[1], c, env, W)
+
+\* Degree of the MATERIAL derivative of component c of t under a deformation of the mesh in the
+\* direction V (Argument on Elems[n], degree kd) -- an UPPER BOUND (exact cancellations occur, e.g.
+\* grad(x) = I is not moved at all, and on an interval everything cancels):
+\*   x' = V;  X, literals and the reference values of form arguments do not move;  a Piola mapped
+\*   argument is (a constant matrix made of J) * reference value, J' = grad_X V of degree kd - 1;
+\*   grad(g) = grad_X(g) K:  grad(g)' = grad(g') - grad(g) grad(V).
+DS(t, c, env, n) ==
+  LET a == t.args
+      kd == ElemAt(n).degree IN
+  CASE t.op \in {"coef", "arg"} -> IF HasPiola(ElemAt(t.n))
+                                    THEN DMul(CompDeg(ElemAt(t.n), Flat(c, PhysShape(ElemAt(t.n)))), DGrad(kd))
+                                    ELSE ZERO
+    [] t.op = "x" -> CompDeg(ElemAt(n), c[1])
+    [] t.op \in Terminals \ {"coef", "arg", "x"} -> ZERO
+    [] t.op = "sum" -> DAdd(DS(a[1], c, env, n), DS(a[2], c, env, n))
+    [] t.op = "prod" -> DProd2(TD(a[1], <<>>, env), DS(a[1], <<>>, env, n), TD(a[2], <<>>, env), DS(a[2], <<>>, env, n))
+    [] t.op = "pow" -> IF t.n = 0 THEN ZERO
+                       ELSE DMul(DPow(TD(a[1], <<>>, env), t.n - 1), DS(a[1], <<>>, env, n))
+    [] t.op = "indexed" -> DS(a[1], Resolve(t.mi, env), env, n)
+    [] t.op = "ctensor" -> DS(a[1], <<>>, Bind(env, t.mi, c), n)
+    [] t.op = "isum" -> SetMax({DS(a[1], c, [env EXCEPT ![t.mi[1]] = v], n) : v \in 0..(t.mi[2] - 1)})
+    [] t.op = "list" -> DS(a[c[1] + 1], Tail(c), env, n)
+    [] t.op = "grad" -> DAdd(DGrad(DS(a[1], Front(c), env, n)),
+                             DMul(DGrad(TD(a[1], Front(c), env)), DGrad(kd)))
+    [] t.op = "inner" -> SetMax({DProd2(TD(a[1], cc, env), DS(a[1], cc, env, n), TD(a[2], cc, env), DS(a[2], cc, env, n)) : cc \in Comps(Shape(a[1]))})
+    [] t.op = "dot" -> LET ra == Rank(a[1])
+                           ca == SubSeq(c, 1, ra - 1)
+                           cb == SubSeq(c, ra, Len(c))
+                           kk == Shape(a[2])[1] IN
+                       SetMax({DProd2(TD(a[1], ca \o <<k>>, env), DS(a[1], ca \o <<k>>, env, n),
+                                      TD(a[2], <<k>> \o cb, env), DS(a[2], <<k>> \o cb, env, n)) : k \in 0..(kk - 1)})
+    [] t.op = "outer" -> LET ra == Rank(a[1])  c1 == SubSeq(c, 1, ra)  c2 == SubSeq(c, ra + 1, Len(c)) IN
+                         DProd2(TD(a[1], c1, env), DS(a[1], c1, env, n), TD(a[2], c2, env), DS(a[2], c2, env, n))
+    [] t.op = "transposed" -> DS(a[1], Rev(c), env, n)
+    [] t.op = "conj" -> DS(a[1], c, env, n)
 
 TrueDeg(t) == Max2(0, SetMax({TD(t, c, env) : c \in Comps(Shape(t)), env \in EnvsOf(Free(t))}))
 
@@ -310,12 +419,13 @@ PSumSet(S, f) == IF S = {} THEN PZero
 \* sub-element); x_j = the variable; X_j = a positive affine function of x
 TermPoly(t, c) ==
   CASE t.op \in {"coef", "arg"} ->
-         LET e == Elems[t.n]  fc == Flat(c, PhysShape(e)) IN
+         LET e == ElemAt(t.n)  fc == Flat(c, PhysShape(e)) IN
          PFull(CompDeg(e, fc), 5 * t.n + (IF t.op = "arg" THEN 3 + t.mi[1] ELSE 0) + IndepComp(e, fc))
     [] t.op = "x" -> PVar(c[1])
     [] t.op = "X" -> PFull(1, c[1])
     [] t.op = "lit" -> PConst(t.n)
     [] t.op = "zero" -> PZero
+    [] t.op = "ident" -> IF c[1] = c[2] THEN PConst(1) ELSE PZero
 
 RECURSIVE PV(_, _, _)
 PV(t, c, env) ==
@@ -369,6 +479,16 @@ H_index_sum(A) == A
 H_transposed(A) == A
 H_conj(a) == a
 H_list_tensor(s) == MaxDegrees(s)
+H_expr_list(s) == MaxDegrees(s)
+H_expr_mapping(s) == MaxDegrees(s)
+\* coordinate_derivative(v, integrand, coordinates, direction, coordinate derivatives): "a shape
+\* derivative in direction V introduces terms V and grad(V) into the integrand": integrand + direction
+H_coordinate_derivative(i, b, dir, d) == AddDegrees(<<i, dir>>)
+\* `derivative = _not_handled`: the estimator raises on an unexpanded Gateaux derivative; it is
+\* applied to what apply_derivatives makes of it (the conformance check reads that DAG back and
+\* hands it to this module as a given term)
+NotHandled == -2
+Estimable(t) == t.op # "gderiv"
 
 \* indexed(v, A, ii): a fully fixed-indexed Coefficient / Argument on an element with
 \* sub-elements is refined to the degree of the sub-element that covers the flattened component.
@@ -382,7 +502,7 @@ H_list_tensor(s) == MaxDegrees(s)
 H_indexed(t, A, rule) ==
   LET op == t.args[1] IN
   IF op.op \in {"coef", "arg"} /\ \A k \in DOMAIN t.mi : ~IsName(t.mi[k])
-  THEN LET e == Elems[op.n] IN
+  THEN LET e == ElemAt(op.n) IN
        IF e.subs # <<>> /\ Len(t.mi) = Len(PhysShape(e))
        THEN LET comp == Flat(t.mi, PhysShape(e)) IN
             IF rule = "physical" /\ e.kind = "symmetric"
@@ -396,8 +516,12 @@ H_indexed(t, A, rule) ==
 RECURSIVE EstR(_, _)
 EstR(t, rule) ==
   LET a == t.args IN
-  CASE t.op = "coef" -> H_coefficient(Elems[t.n])
-    [] t.op = "arg" -> H_argument(Elems[t.n])
+  CASE t.op = "coef" -> H_coefficient(ElemAt(t.n))
+    [] t.op = "arg" -> H_argument(ElemAt(t.n))
+    [] t.op = "ident" -> H_constant_value
+    [] t.op = "gderiv" -> NotHandled
+    [] t.op = "cderiv" -> H_coordinate_derivative(EstR(a[1], rule), H_expr_list(<<H_spatial_coordinate>>),
+                                                  H_expr_list(<<H_argument(ElemAt(t.mi[1]))>>), H_expr_mapping(<<>>))
     [] t.op = "x" -> H_spatial_coordinate
     [] t.op = "X" -> H_cell_coordinate
     [] t.op \in {"lit", "zero"} -> H_constant_value
@@ -431,10 +555,12 @@ EntryOf(t) == Entry(t, Shape(t), Free(t), Depth(t), ArgNums(t), HasDomain(t))
 Top == stack[Len(stack)]
 \* the depth allowed for a term at the top of the stack
 Budget == IF Len(stack) = 2 THEN RightDepth ELSE MaxDepth
-CanPush == Len(stack) = 0 \/ (Len(stack) = 1 /\ stack[1].dp < MaxDepth)
+\* nothing is built on top of a form operation
+Open(e) == e.t.op \notin FormOps
+CanPush == Len(stack) = 0 \/ (Len(stack) = 1 /\ stack[1].dp < MaxDepth /\ Open(stack[1]))
 Push(e) == stack' = Append(stack, e)
 ReplaceTop(e) == stack' = [stack EXCEPT ![Len(stack)] = e]
-Unary(op) == op \in Ops /\ Len(stack) >= 1 /\ Top.dp < Budget
+Unary(op) == op \in Ops /\ Len(stack) >= 1 /\ Top.dp < Budget /\ Open(Top)
 Binary(op) == op \in Ops /\ Len(stack) = 2 /\ 1 + Max2(stack[1].dp, stack[2].dp) <= MaxDepth
 
 PushCoef == CanPush /\ \E n \in CoefElems :
@@ -518,11 +644,31 @@ DoOuter ==
   /\ Binary("outer") /\ Len(L.sh) = 1 /\ Len(R.sh) = 1 /\ NoFree2 /\ L.an \cap R.an = {}
   /\ Combine(N("outer", 0, <<>>, <<L.t, R.t>>), L.sh \o R.sh, {})
 
+\* FORM OPERATIONS on a finished integrand (a true scalar on a domain); the new Argument gets the
+\* next free number (the integrand's own arguments must be numbered from 0 for a valid form)
+Integrand == Len(stack) = 1 /\ Open(Top) /\ Top.sh = <<>> /\ Top.fr = {} /\ Top.dm
+             /\ Top.an \in {{}, {0}}
+NewNumber == Cardinality(Top.an)
+\* derivative(t*dx, tuple of Coefficients), at least one of which occurs in t
+DoGateaux ==
+  /\ "gderiv" \in Ops /\ Integrand
+  /\ LET e == Top IN
+     \E k \in DOMAIN DerivTuples :
+        /\ \E j \in DOMAIN DerivTuples[k] : HasCoef(e.t, DerivTuples[k][j])
+        /\ ReplaceTop(Entry(N("gderiv", 0, <<k, NewNumber>>, <<e.t>>), <<>>, {}, e.dp, e.an \cup {NewNumber}, TRUE))
+\* derivative(t*dx, SpatialCoordinate(mesh), V)
+DoShape ==
+  /\ "cderiv" \in Ops /\ Integrand
+  /\ LET e == Top IN
+     \E n \in DirSlots :
+        ReplaceTop(Entry(N("cderiv", 0, <<n, NewNumber>>, <<e.t>>), <<>>, {}, e.dp, e.an \cup {NewNumber}, TRUE))
+
 \* Seeds = {<< >>}: start from the empty stack; Seeds = a set of <<t>>: one given term each
 Init == stack \in {IF s = <<>> THEN <<>> ELSE <<EntryOf(s[1])>> : s \in Seeds}
 Next == \/ PushCoef \/ PushArg \/ PushCoord \/ PushLit
         \/ DoIndexed \/ DoCTensor \/ DoPow \/ DoGrad \/ DoTransposed
         \/ DoProd \/ DoSum \/ DoList \/ DoInner \/ DoDot \/ DoOuter
+        \/ DoGateaux \/ DoShape
 Spec == Init /\ [][Next]_vars
 
 -----------------------------------------------------------------------------
@@ -542,9 +688,9 @@ PlainPool == \A i \in DOMAIN Elems : /\ Elems[i].kind # "symmetric"
                                       /\ \A j \in DOMAIN Elems[i].subs : Elems[i].subs[j].refsize = Elems[i].subs[j].physsize
 
 \* THE PROPERTY at model level
-EstSafe == Done => Est(T) >= TrueDeg(T)
+EstSafe == (Done /\ Estimable(T)) => Est(T) >= TrueDeg(T)
 \* the as-coded rule, checked in the same run on pools where it is expected to be safe
-AsCodedSafe == Done => EstR(T, "reference") >= TrueDeg(T)
+AsCodedSafe == (Done /\ Estimable(T)) => EstR(T, "reference") >= TrueDeg(T)
 \* the as-coded rule must coincide with the intended one wherever reference and physical sizes agree
 RulesAgreeOnPlainPools == (Done /\ PlainPool) => EstR(T, "reference") = EstR(T, "physical")
 
@@ -570,8 +716,8 @@ Checked ==
               ep == EstR(T, "physical")
               td == TrueDeg(T)
               info == IF WithPoly THEN PolyInfo(T) ELSE <<FALSE, 0>>
-          IN /\ (IF IndexedRule = "reference" THEN er ELSE ep) >= td     \* EstSafe
-             /\ (AsCodedHolds => er >= td)                               \* AsCodedSafe
+          IN /\ (Estimable(T) => (IF IndexedRule = "reference" THEN er ELSE ep) >= td)     \* EstSafe
+             /\ ((AsCodedHolds /\ Estimable(T)) => er >= td)                            \* AsCodedSafe
              /\ (PlainPool => er = ep)                                   \* RulesAgreeOnPlainPools
              /\ (WithPoly => PolyRulesOn(T, info, td))                   \* PolyRules
              /\ (DumpOn => PrintT(ToJson(<<Enc(T), er, ep, td, IF info[1] THEN info[2] ELSE -2>>)))
